@@ -555,6 +555,13 @@ var ruleOvf = &Rule{
 					n++
 					key := fmt.Sprintf("%s: %s #%d", fnName(fn), what, ord.next(fnName(fn)+what))
 					if isOverflowPredicate(fn) {
+						if len(ops) == 1 && !minIntExcluded(factsAt(b), ops[0]) {
+							// Wrapping +, − and × are how such a test detects overflow;
+							// a negation is not: −MinInt64 is MinInt64, so reasoning
+							// about −x instead of x is wrong for exactly that value.
+							out.viol(key, p.pos(ins.Pos()), fnName(fn), "the overflow test negates an operand without excluding the minimum integer first: for −2⁶³ the negation wraps and the test answers for the wrong operand")
+							continue
+						}
 						out.excepted(key, p.pos(ins.Pos()), fnName(fn), "wrapping arithmetic inside the overflow test itself")
 						continue
 					}
@@ -877,11 +884,39 @@ func init() {
 	register(ruleFinite, ruleDiv, ruleOvf, ruleF2I, ruleListIndex)
 	addProp(&PropSpec{
 		ID:          "C13",
-		Rules:       []string{"R-DIV", "R-OVF", "R-FINITE", "R-LISTINDEX", "R-TOWER", "R-F2I"},
+		Rules:       []string{"R-DIV", "R-OVF", "R-FINITE", "R-LISTINDEX", "R-TOWER", "R-F2I", "R-FOLD", "R-NUMLIT", "R-INPUT-RO"},
 		Explanation: "'Exact or loud' as guard discipline on SSA instructions: every division on item values is zero-tested, every raw int64 operation on item values is reachable only behind an overflow test on the same operands (falling back to the double operation), every computed double is finiteness-checked before it can become an item, every operand sequence is length-tested before its single element is read, and the three numeric representations are handled together.",
 		Decided: []string{"R-DIV: zero tests dominate / and %, the zero branch is a suppressible error", "R-OVF: raw integer arithmetic only behind an overflow test (binary) or a MinInt64 test (unary)",
 			"R-FINITE: no Inf/NaN leaves a computing function", "R-LISTINDEX: singleton test before operand[0], failing branch suppressible", "R-TOWER: numeric representations are siblings"},
 		NotDecided:  []string{"the arithmetic itself (that the overflow predicate is right, that the double result is the correctly rounded one)", "identities such as x+y = y+x on concrete values"},
 		Assumptions: []string{"item float64 values of the input document are finite (JSON numbers)"},
 	})
+}
+
+// minIntExcluded: the facts rule out v == math.MinInt64.
+func minIntExcluded(fs []Fact, v ssa.Value) bool {
+	const minInt = -9223372036854775808
+	for _, f := range fs {
+		bo, ok := f.Cond.(*ssa.BinOp)
+		if !ok {
+			continue
+		}
+		var other ssa.Value
+		switch {
+		case sameValue(bo.X, v):
+			other = bo.Y
+		case sameValue(bo.Y, v):
+			other = bo.X
+		default:
+			continue
+		}
+		k, ok := constInt(other)
+		if !ok || k != minInt {
+			continue
+		}
+		if (bo.Op == token.EQL && !f.Truth) || (bo.Op == token.NEQ && f.Truth) || (bo.Op == token.GTR && f.Truth && sameValue(bo.X, v)) {
+			return true
+		}
+	}
+	return false
 }
